@@ -37,17 +37,22 @@ I == INSTANCE DualB WITH
 \* The scalar level: numbers of the inner level I, a dual number type over the rationals.
 CONSTANT Inner       \* descriptor of a scalar dual number type: InnerDual, InnerDual2, InnerDual3, InnerHyperDual
 IsF == FALSE
+\* TLC passes operator arguments unevaluated and re-evaluates them at every use; through two levels of dual
+\* arithmetic that is exponential in the depth of an expression.  Binding the arguments as bound variables of a
+\* singleton set evaluates each exactly once (S1 / S2: strict unary / binary application).
+S1(op(_), a) == CHOOSE r \in {op(x) : x \in {a}} : TRUE
+S2(op(_, _), a, b) == CHOOSE r \in {op(x, y) : x \in {a}, y \in {b}} : TRUE
 B == INSTANCE DualB WITH
-        SAdd <- LAMBDA a, b : I!AddB(Inner, a, b), SSub <- LAMBDA a, b : I!SubB(Inner, a, b),
-        SMul <- LAMBDA a, b : I!MulB(Inner, a, b), SDiv <- LAMBDA a, b : I!DivB(Inner, a, b),
-        SNeg <- LAMBDA a : I!NegB(Inner, a), SRecip <- LAMBDA a : I!RecipB(Inner, a),
+        SAdd <- LAMBDA a, b : S2(LAMBDA x, y : I!AddB(Inner, x, y), a, b), SSub <- LAMBDA a, b : S2(LAMBDA x, y : I!SubB(Inner, x, y), a, b),
+        SMul <- LAMBDA a, b : S2(LAMBDA x, y : I!MulB(Inner, x, y), a, b), SDiv <- LAMBDA a, b : S2(LAMBDA x, y : I!DivB(Inner, x, y), a, b),
+        SNeg <- LAMBDA a : S1(LAMBDA x : I!NegB(Inner, x), a), SRecip <- LAMBDA a : S1(LAMBDA x : I!RecipB(Inner, x), a),
         SZero <- I!ZeroB(Inner), SOne <- I!OneB(Inner), SOfQ <- LAMBDA q : I!FromFB(Inner, q),
-        SMulF <- LAMBDA t, q : I!MulFB(Inner, t, q), SDivF <- LAMBDA t, q : I!DivFB(Inner, t, q),
-        SAddF <- LAMBDA t, q : I!AddFB(Inner, t, q), SSubF <- LAMBDA t, q : I!SubFB(Inner, t, q),
-        SFun <- LAMBDA fn, t : I!ElemB(Inner, fn, t),
-        SPowi <- LAMBDA t, n : I!PowiB(Inner, t, n),
-        SPowf <- LAMBDA t, q : I!PowfB(Inner, t, q, q = QInt(2)),
-        SLog <- LAMBDA t, b : I!LogB(Inner, t, b), SAtan2 <- LAMBDA t, u : I!Atan2B(Inner, t, u),
+        SMulF <- LAMBDA t, q : S1(LAMBDA x : I!MulFB(Inner, x, q), t), SDivF <- LAMBDA t, q : S1(LAMBDA x : I!DivFB(Inner, x, q), t),
+        SAddF <- LAMBDA t, q : S1(LAMBDA x : I!AddFB(Inner, x, q), t), SSubF <- LAMBDA t, q : S1(LAMBDA x : I!SubFB(Inner, x, q), t),
+        SFun <- LAMBDA fn, t : S1(LAMBDA x : I!ElemB(Inner, fn, x), t),
+        SPowi <- LAMBDA t, n : S1(LAMBDA x : I!PowiB(Inner, x, n), t),
+        SPowf <- LAMBDA t, q : S1(LAMBDA x : I!PowfB(Inner, x, q, q = QInt(2)), t),
+        SLog <- LAMBDA t, b : S1(LAMBDA x : I!LogB(Inner, x, b), t), SAtan2 <- LAMBDA t, u : S2(LAMBDA x, y : I!Atan2B(Inner, x, y), t, u),
         SRe <- LAMBDA t : I!ReB(t),
         SIsZero <- LAMBDA t : I!IsZeroB(t), SIsOne <- LAMBDA t : I!IsOneB(t),
         SIsPositive <- LAMBDA t : I!IsPositiveB(t), SIsNegative <- LAMBDA t : I!IsNegativeB(t),
